@@ -17,6 +17,7 @@ STD_VARIANTS = {
     "std::result::Result": ["Ok", "Err"],
     "std::ops::ControlFlow": ["Continue", "Break"],
     "std::cmp::Ordering": ["Less", "Equal", "Greater"],
+    "serde_json::Value": ["Null", "Bool", "Number", "String", "Array", "Object"],
 }
 
 
@@ -167,6 +168,18 @@ class Vpes:
             return None
         t = sd[3]
         names = callee_names(t["func"])
+        # hypothetical answers of external predicates (set by a rule, e.g. "the JSON number is an integer")
+        hyp = getattr(self, "extern_bool", None)
+        if hyp and names and not via_discr:
+            if names[0] in hyp:
+                return int(bool(hyp[names[0]]))
+            if names[0] in ("std::option::Option::<T>::is_some", "std::option::Option::<T>::is_none") and t["args"]:
+                cr = b.call_result_of(t["args"][0])
+                if cr:
+                    inner = callee_names(cr[1]["func"])
+                    if inner and inner[0] in hyp:
+                        some = bool(hyp[inner[0]])
+                        return int(some if names[0].endswith("is_some") else not some)
         cal = None
         for n in reversed(names):
             if n in self.prog.bodies and self.prog.bodies[n].crate == self.crate and self.prog.bodies[n].kind != "Closure":
